@@ -183,6 +183,7 @@ class _RecFS:
 
     async def setstat(self, path, attrs, **k):
         self.log.append(('setstat', path))
+        self.setstat_follow = getattr(self, 'setstat_follow', []) + [(path, k.get('follow_symlinks', True))]
 
     async def open(self, path, mode='wb'):
         self.log.append(('open', path))
@@ -289,13 +290,19 @@ def sftp_get_names(n: int, i0: int, i1: int, i2: int, i3: int, kind: int, preser
     cl._path_errors = 'strict'
     cl._cwd = None
     errs = []
-    r = drive(cl._copy(SrcFS(), DstFS(log, True), b'/remote', dst,
+    dfs = DstFS(log, True)
+    r = drive(cl._copy(SrcFS(), dfs, b'/remote', dst,
                        SFTPAttrs(type=S.FILEXFER_TYPE_DIRECTORY), preserve, True, False, False,
                        16, 1, None, lambda exc: errs.append(exc), False))
     if r[0] == 'exc' and not isinstance(r[1], (OSError, SFTPError)):
         return False
     if r[0] == 'suspended':
         return False
+    # a symlink recreated locally must not have its attributes applied *through* the link (its target is server-chosen)
+    made_links = [p for op, p in log if op == 'symlink']
+    for p, follow in getattr(dfs, 'setstat_follow', []):
+        if p in made_links and follow:
+            return False
     for _, p in log:
         if not confined(p, dst):
             return False
